@@ -212,6 +212,9 @@ func applyEdit(root *yjson.Object, p *presence.Presence, e *Edit) bool {
 		}
 		return true
 	}
+	if strings.HasPrefix(e.K, "cons.") {
+		return applyConsEdit(root, e)
+	}
 	tgt := resolve(root, e.P)
 	if tgt == nil {
 		return false
@@ -449,6 +452,9 @@ func normErr(s string) string {
 		i++
 	}
 	out := sb.String()
+	if i := strings.Index(out, "should be found:"); i >= 0 {
+		out = out[:i+len("should be found")] // a dump of the structure follows
+	}
 	out = strings.ReplaceAll(out, "0x<id>", "<ptr>")
 	out = ticketRe.ReplaceAllString(out, "<ticket>")
 	if len(out) > 300 {
